@@ -12,7 +12,26 @@
 //	realtime.go   real-time complement of the sweep around a real 5 ms deadline under 1..16 spinning
 //	              goroutines; a hang is only claimed with a goroutine-dump witness.
 //
-// Oracles are written from the property statement; see each file for the don't-care regions.
+// Oracles are written from the property statement. What is demanded of a runner call (E = the instant at which
+// the action's signal fires = min(deadline T, parent cancellation P); d = the instant at which the action would
+// finish on its own):
+//
+//	R1 the runner returns (hang ⇔ structural witness);
+//	R2 the result is the action's own result, a timeout kind or a cancelled kind — nothing else;
+//	R3 own result ⇒ the action did not finish through its signal (clock-free: the action's own "I was signalled"
+//	   flag); in a bubble also d < E ⇒ own result, and a timeout kind needs T ≤ return instant, a cancelled kind
+//	   P ≤ return instant (a cancelled kind always needs a parent whose cancellation had begun);
+//	R4 timeout/cancelled kind ⇒ an action that can only finish through its signal has observed it;
+//	R5 RunActionWithTimeoutAndContext: the action's context is done on return (documented);
+//	   RunActionWithTimeoutAndCancelStore: done on every non-nil return and after store.Cancel().
+//
+// Don't-care: which of {own result, timeout/cancelled} is returned when d = E (same instant) and, in real time,
+// anywhere near the deadline; which of timeout/cancelled is returned when both are justified; the blind action
+// (never looks at its signal) may yield its own result or the timeout kind when d > E; the store variant's
+// context on the success path before store.Cancel(); RunActionWithTimeout's stop channel on the success path;
+// whether the runner waits for the action to *return* (only "has observed the signal" is stated); promptness.
+// Parallelise: order of results, the value of `results` next to an error or with a nil result type, panics on
+// ill-typed results. Cancel store: Len values, how often a function is invoked, data races (needs -race).
 package main
 
 import (
@@ -320,8 +339,10 @@ func judgeCommon(r *vrun.Run, sc scen, s snapshot, settledObserved bool, extra m
 	}
 	// (R3a) the action's own result although the action only finished after observing its signal
 	if (cls == "own-nil" || cls == "own-error") && s.Observed {
+		w := wit()
+		w["deterministic"] = false // depends on the order in which the runtime runs the goroutines woken by one event
 		r.Violation(sig("own-result-after-signal-observed", "result", cls, "parent", parentClass(sc)),
-			fmt.Sprintf("%s returned the action's own result %q although the action only finished after observing its stop signal", sc.Runner, errStr(s.Res)), wit())
+			fmt.Sprintf("%s returned the action's own result %q although the action only finished after observing its stop signal", sc.Runner, errStr(s.Res)), w)
 	}
 	// cancelled kind needs a parent whose cancellation had at least begun
 	if cls == "cancelled" && !s.ParentCancelBegun {
